@@ -99,7 +99,7 @@ def run(tier, replay):
     rep.count('pair_programs', n_prog)
     rep.cov['rule'] = ('all low-13-bit patterns (stride 7 in quick) x 24+ upper classes, their negations and -2^32 '
                        'spellings, 20000 random 65-bit values; each pair program is lui/auipc + consumer with '
-                       '%hi/%lo of a literal / constant / label / %position; non-trivial = distinct '
+                       '%hi/%lo of a literal / constant / label / %position / a compound expression over constants whose inner parentheses decide the value; non-trivial = distinct '
                        '(low 12 bits, upper 20 bits, sign, beyond-32-bit) classes')
     rep.cov['model_vs_impl_disagreements'] = mism
     rep.assumptions += ['Python int semantics of &, >>, + are modelled, not verified']
@@ -119,7 +119,7 @@ def pair_programs(asm, rep, tier, rnd):
     cases = []
     for i in range(n):
         kind = i % 5
-        how = (i // 5) % 4       # literal / constant / label / %position
+        how = (i // 5) % 5       # literal / constant / label / %position / compound expression with inner parentheses
         v = rnd.choice([rnd.randrange(0, M32), rnd.randrange(-2 ** 31, 2 ** 31), rnd.choice([0x7ff, 0x800, 0xfff, 0x1000, 0x7ffff800, 0x7ffff7ff, 0xfffff800, 0x80000000])])
         pre = ''
         nop_before = rnd.randrange(0, 5)
@@ -134,10 +134,21 @@ def pair_programs(asm, rep, tier, rnd):
         elif how == 2:
             expr = 'L'
             val = None      # label offset, filled below
-        else:
+        elif how == 3:
             base = rnd.randrange(0, M32) & ~1
             expr = '%position(L, {})'.format(hex(base))
             val = None
+        else:
+            # parentheses that decide the value: dropping or moving any of them changes it
+            env = dict(BASE=rnd.choice([0x20000000, 0x40021000, 0x08000000, rnd.randrange(0, 2 ** 31) & ~0xf]),
+                       N=rnd.randrange(1, 200), STRIDE=rnd.choice([4, 8, 12, 0x400, 0x1004]), K=rnd.randrange(2, 4000) * 2)
+            expr = rnd.choice(['BASE + (N + 1) * STRIDE', '(BASE | 0x800) + (N << 2)', '(BASE + N) * 2 - (K - (N - 1))',
+                               '-(BASE + 4) & 0xfffffffe', 'BASE - (K - N * 2)', '(BASE + K) & ~(STRIDE - 1)',
+                               '((BASE >> 12) + (N & 7)) << 12 | (K + (N << 1))', 'BASE + 2 * (K + STRIDE * (N - 1))'])
+            if kind == 4:
+                expr = '(' + expr + ') & ~1'
+            pre = ''.join('{} = {}\n'.format(k, x) for k, x in env.items())
+            val = eval(expr, {'__builtins__': {}}, env)
         body = 'addi x0 x0 0\n' * nop_before
         if kind == 0:
             pair = 'lui x5, %hi({e})\naddi x5, x5, %lo({e})\n'
